@@ -331,7 +331,7 @@ func drawWireTerm(t *rapid.T, tableLen int, depth int, allowVar bool) wire.Term 
 	case k == 8:
 		return wire.Term{K: wire.TBool, Bo: rapid.Bool().Draw(t, "wt.bo")}
 	case k <= 10 && depth == 0:
-		n := rapid.IntRange(0, 3).Draw(t, "wt.setn")
+		n := rapid.SampledFrom([]int{0, 1, 1, 2, 2, 3, 3, 8, 9, 12}).Draw(t, "wt.setn")
 		if n == 0 && !c10Invalid {
 			n = 1
 		}
@@ -347,8 +347,8 @@ func drawWireTerm(t *rapid.T, tableLen int, depth int, allowVar bool) wire.Term 
 					e = drawWireTerm(t, tableLen, 1, false)
 					if e.K != first.K {
 						e = first
-						e.U++
-						e.I++
+						e.U += uint64(i)
+						e.I += int64(i)
 						if e.K == wire.TBytes {
 							e.B = append(append([]byte{}, e.B...), byte(i))
 						}
@@ -393,6 +393,22 @@ func drawWireOps(t *rapid.T, tableLen int) []wire.Op {
 			ops = append(ops, wire.Op{Kind: 3, Code: 9})
 		}
 		return ops
+	case 2, 3: // an operation between two sets of possibly different element types and sizes
+		mk := func(label string) wire.Term {
+			kind := rapid.SampledFrom([]wire.TKind{wire.TInt, wire.TStr, wire.TBytes, wire.TDate, wire.TBool}).Draw(t, label+".kind")
+			n := rapid.SampledFrom([]int{1, 2, 3, 8, 9, 12}).Draw(t, label+".n")
+			st := wire.Term{K: wire.TSet}
+			for i := 0; i < n; i++ {
+				e := wire.Term{K: kind, I: int64(i), U: uint64(i), B: []byte{byte(i)}, Bo: i%2 == 0}
+				if kind == wire.TBool && i >= 2 {
+					break
+				}
+				st.Set = append(st.Set, e)
+			}
+			return st
+		}
+		code := rapid.SampledFrom([]uint64{4, 5, 15, 16}).Draw(t, "wo.setop")
+		return []wire.Op{{Kind: 1, Val: mk("wo.l")}, {Kind: 1, Val: mk("wo.r")}, {Kind: 3, Code: code}}
 	case 1: // plausible comparison
 		return []wire.Op{{Kind: 1, Val: drawWireTerm(t, tableLen, 0, true)}, {Kind: 1, Val: drawWireTerm(t, tableLen, 0, true)},
 			{Kind: 3, Code: uint64(rapid.IntRange(0, 16).Draw(t, "wo.bin"))}}
